@@ -477,6 +477,11 @@ func (s *spec) Enabled(w *engine.World, ctx sdk.Context, mm engine.Model, depth 
 				}
 			}
 		}
+		if t != nil {
+			// privileged non-creators: the module authority (governance account), the tunnel's own fee
+			// payer account and the tunnel module account; the statement allows none of them
+			who = append(who, "GOV", "FP", "MOD")
+		}
 		for _, a := range who {
 			for _, op := range []string{"act", "deact", "trig"} {
 				evs = append(evs, fmt.Sprintf("%s:%d:%s", op, id, a))
@@ -496,6 +501,24 @@ func (s *spec) Enabled(w *engine.World, ctx sdk.Context, mm engine.Model, depth 
 }
 
 // ---- step -------------------------------------------------------------------------------------
+
+// signer resolves the sender of a management message: an actor, the module authority, the fee payer
+// account of the tunnel (given: read from the stored tunnel) or the tunnel module account.
+func (s *spec) signer(w *engine.World, ctx sdk.Context, name string, tid uint64) string {
+	switch name {
+	case "GOV":
+		return w.App.TunnelKeeper.GetAuthority()
+	case "MOD":
+		return authtypes.NewModuleAddress(tunneltypes.ModuleName).String()
+	case "FP":
+		t, err := w.App.TunnelKeeper.GetTunnel(ctx, tid)
+		if err != nil {
+			panic(err)
+		}
+		return t.FeePayer
+	}
+	return actor(name).Address.String()
+}
 
 type evInfo struct {
 	kind     string // create dep wd act deact trig block
@@ -546,6 +569,14 @@ func (s *spec) Step(w *engine.World, ctx sdk.Context, mm engine.Model, ev string
 		}
 		if t.Creator == by {
 			return "creator"
+		}
+		switch by {
+		case "GOV":
+			return "authority"
+		case "FP":
+			return "fee-payer"
+		case "MOD":
+			return "module-account"
 		}
 		return "stranger"
 	}
@@ -661,7 +692,7 @@ func (s *spec) Step(w *engine.World, ctx sdk.Context, mm engine.Model, ev string
 		info.tid, _ = strconv.ParseUint(parts[1], 10, 64)
 		info.by = parts[2]
 		t := m.tunnel(info.tid)
-		addr := actor(info.by).Address.String()
+		addr := s.signer(w, ctx, info.by, info.tid)
 		var msg sdk.Msg
 		switch info.kind {
 		case "act":
@@ -965,7 +996,7 @@ func init() {
 	engine.Register(&engine.Check{
 		ID: "C17",
 		Run: func(r *engine.Run) {
-			r.Bound = "2-3 accounts with wallets of 1-6 units per denom, <=2-3 tunnels (pre-created and/or created during the search), minimum deposit of 1 or 2 denoms, routes that fail (tss without group, ibc without channel) or deliver (tss with a live 2-of-2 group and funded fee payers); every create/deposit/withdraw amount in {1 per denom, min-1, min, all, all+1} resolved against the wallet / the own deposit, activate/deactivate/trigger by the creator and by a stranger, one non-existent tunnel id, <=1 (quick; 2 in the delivering configuration) / <=2 (thorough) end-blocks; BFS depth 4-6 (quick) / 5-7 and to an empty frontier for the two small single-denom configurations (thorough)"
+			r.Bound = "2-3 accounts with wallets of 1-6 units per denom, <=2-3 tunnels (pre-created and/or created during the search), minimum deposit of 1 or 2 denoms, routes that fail (tss without group, ibc without channel) or deliver (tss with a live 2-of-2 group and funded fee payers); every create/deposit/withdraw amount in {1 per denom, min-1, min, all, all+1} resolved against the wallet / the own deposit, activate/deactivate/trigger by the creator, a stranger, the module authority (gov account), the tunnel's fee payer and the tunnel module account, one non-existent tunnel id, <=1 (quick; 2 in the delivering configuration) / <=2 (thorough) end-blocks; BFS depth 4-6 (quick) / 5-7 and to an empty frontier for the two small single-denom configurations (thorough)"
 			r.Assumptions = []string{
 				"Tx seam = ValidateBasic + message-router handler in a cache context (ante chain not executed here; see C02)",
 				"deposit and create acceptance are taken as given (the statement does not fix them); their effects on the three ledgers and on the wallet are checked",
@@ -1021,6 +1052,8 @@ func required(quick bool) []string {
 		"act:stranger:covered:inactive:rejected", "act:stranger:below-min:inactive:rejected",
 		"deact:creator:covered:active:accepted", "deact:stranger:covered:active:rejected",
 		"trig:creator:covered:active:accepted", "trig:creator:covered:inactive:rejected", "trig:stranger:covered:active:rejected",
+		"act:authority:covered:inactive:rejected", "deact:authority:covered:active:rejected", "trig:authority:covered:active:rejected",
+		"act:fee-payer:covered:inactive:rejected", "act:module-account:covered:inactive:rejected",
 		"wd-from-active:to-below-min", "wd-from-active:still-covered", "wd-below-min:deactivated",
 		"block:active=1", "block:active=2",
 		"raise:leaves-active-tunnel-below-minimum", "genesis-roundtrip:active=0", "genesis-roundtrip:active=1",
